@@ -154,7 +154,7 @@ PROPS = {
         engine="TestC16",
         extract="typegraph",
         lean_modules=["S2S.Props.C16"],
-        required_theorems=["C16_forbidden_namespace_denied", "C16_allowed_namespaces_pass", "C16_list_namespaces_filtered", "C16_every_namespace_field_is_seen"],
+        required_theorems=["C16_forbidden_namespace_denied", "C16_allowed_namespaces_pass", "C16_list_namespaces_filtered", "C16_every_namespace_field_is_seen", "C16_unreadable_request_denied"],
         rule="for every root type of both services and every kind of structural path to a namespace field (incl. inside history blobs), real messages with an "
              "allowed / forbidden / empty name at that path, and combinations (allowed on one path + forbidden on another), through the real "
              "AccessControlInterceptor.Intercept with a recording handler: decision compared with the model given every namespace value of the message "
